@@ -31,3 +31,23 @@ def merge_discharged(res, keep_labels=3):
         merged.append(d)
     res["obligations"] = merged + rest
     return res
+
+
+def prime_inspect_cache():
+    """Speed only. pyMOTO calls inspect.stack() in every Signal/Module constructor (for its error
+    messages). Under `python -m symx.runner` the stack contains `<frozen runpy>` frames, for which
+    inspect.getmodule() falls through its file cache and scans all of sys.modules (>1500 modules with
+    sympy/z3 loaded) on every call: measured 9 ms instead of 0.09 ms per Signal().  Telling inspect's own
+    cache which module those frames belong to removes the scan; the frames pyMOTO reads (the first one
+    outside core_objects.py) are unaffected."""
+    import inspect
+    import os
+    import sys
+    for fn, mod in (("<frozen runpy>", "runpy"), ("<frozen importlib._bootstrap>", "importlib._bootstrap"),
+                    ("<frozen importlib._bootstrap_external>", "importlib._bootstrap_external")):
+        if mod in sys.modules or mod == "runpy":
+            try:
+                __import__(mod)
+                inspect.modulesbyfile.setdefault(os.path.abspath(fn), mod)
+            except Exception:
+                pass
